@@ -47,8 +47,8 @@ type SubDef struct {
 
 // Ext is the reference bookkeeping (history variables) of the TM-client world. It is maintained from
 // the operation labels, the block table and the result class of each step only - never from the
-// client's own freeze / status / latest-height answers - except that an allowed pruning step
-// (oldest, expired) is adopted from the store once it was checked to be allowed.
+// client's own freeze / status / latest-height answers - except that removals of consensus states are
+// adopted from the store (whether a removal was allowed is what the C20 / C22 step oracles decide).
 type Ext struct {
 	Cons       map[int]int // reference stored set of the subject: height index -> variant first stored
 	Latest     int         // reference latest height index
@@ -343,6 +343,24 @@ func (s *Scenario) Ops(w *ksim.World) []ksim.Op {
 }
 
 func (s *Scenario) Apply(w *ksim.World, op ksim.Op) ksim.Result {
+	if len(op.K) > 4 && op.K[:4] == "use-" {
+		// use operations run on a private fork which is dropped: only their outcome matters
+		return s.use(w.Fork(), op)
+	}
+	r := s.apply(w, op)
+	// Removals are adopted from the store whatever their cause: whether a removal was allowed (oldest,
+	// expired) is judged by the step oracles of C20 / C22 from the pre and post states, and the status
+	// reference ("latest consensus state missing") must follow what is really stored.
+	e := ext(w)
+	for _, i := range e.stored() {
+		if !w.HasConsensus(0, Subject, s.VC.H(i)) {
+			delete(e.Cons, i)
+		}
+	}
+	return r
+}
+
+func (s *Scenario) apply(w *ksim.World, op ksim.Op) ksim.Result {
 	e := ext(w)
 	vc := s.VC
 	switch op.K {
@@ -352,7 +370,6 @@ func (s *Scenario) Apply(w *ksim.World, op ksim.Op) ksim.Result {
 		if err != nil {
 			panic(err)
 		}
-		minBefore, hadMin := minStored(e)
 		r := w.Tx(0, msg)
 		if r.Class != ksim.OK {
 			return r
@@ -362,14 +379,12 @@ func (s *Scenario) Apply(w *ksim.World, op ksim.Op) ksim.Result {
 				e.Frozen = true // conflicting header for a stored height
 				return r
 			}
-			s.adoptPrune(w, e, minBefore, hadMin) // duplicate: nothing but the optional pruning
-			return r
+			return r // duplicate: nothing but the optional pruning
 		}
 		if s.nonMonotone(e, i, v) {
 			e.Frozen = true
 			return r
 		}
-		s.adoptPrune(w, e, minBefore, hadMin)
 		e.Cons[i] = v
 		if i > e.Latest {
 			e.Latest = i
@@ -406,8 +421,7 @@ func (s *Scenario) Apply(w *ksim.World, op ksim.Op) ksim.Result {
 		}
 		return r
 	}
-	// use operations run on a private fork which is dropped: only their outcome matters
-	return s.use(w.Fork(), op)
+	panic("unknown op " + op.K)
 }
 
 func minStored(e *Ext) (int, bool) {
@@ -416,17 +430,6 @@ func minStored(e *Ext) (int, bool) {
 		return 0, false
 	}
 	return st[0], true
-}
-
-// adoptPrune removes the oldest reference entry when the client really pruned it and pruning was allowed
-// (oldest stored height, expired by the reference clock). Anything else is left for the oracles to flag.
-func (s *Scenario) adoptPrune(w *ksim.World, e *Ext, min int, had bool) {
-	if !had || !s.expired(e, min, now(w)) {
-		return
-	}
-	if !w.HasConsensus(0, Subject, s.VC.H(min)) {
-		delete(e.Cons, min)
-	}
 }
 
 func (s *Scenario) use(w *ksim.World, op ksim.Op) ksim.Result {
